@@ -13,6 +13,9 @@ Everything it drops (docstrings, warnings.warn, unused dict bookkeeping) is list
 of the generated file.
 """
 import ast
+import os as _os, sys as _sys
+_sys.path.insert(0, _os.path.dirname(_os.path.abspath(__file__)))
+from astnorm import trim_unused_trailing_params, normalise
 import sys
 import os
 import json
@@ -61,44 +64,13 @@ class Kind:
     def mat(r, c): return ('mat', r, c)
 
 
-def trim_unused_trailing_params(fn):
-    """An additive API change gives a function a new trailing keyword parameter that nothing reads yet (or that only callers
-    outside the translated code pass). Such a parameter cannot influence the result, so the model is the function without it:
-    trailing parameters that (i) have a default which is a literal constant / None / a negated literal and (ii) are not read or
-    written anywhere in the body are removed from the signature here, in the AST, before anything else looks at it. A call site
-    in translated code that passes such a parameter then fails to translate (reported, never guessed)."""
-    dropped = []
-    a = fn.args
-    if a.vararg or a.kwarg or a.kwonlyargs or getattr(a, 'posonlyargs', None):
-        return dropped
-    names = set()
-    for b in fn.body:
-        for n in ast.walk(b):
-            if isinstance(n, ast.Name):
-                names.add(n.id)
-            elif isinstance(n, (ast.Global, ast.Nonlocal)):
-                names.update(n.names)
-            elif isinstance(n, ast.Call) and isinstance(n.func, ast.Name) and n.func.id in ('locals', 'vars', 'eval', 'exec'):
-                return dropped
-
-    def literal(d):
-        if isinstance(d, ast.Constant):
-            return True
-        return isinstance(d, ast.UnaryOp) and isinstance(d.op, (ast.USub, ast.UAdd)) and isinstance(d.operand, ast.Constant)
-    while a.defaults and a.args and a.args[-1].arg not in names and literal(a.defaults[-1]):
-        dropped.append(a.args[-1].arg)
-        a.args.pop()
-        a.defaults.pop()
-    return dropped[::-1]
-
-
 class ModuleInfo:
     def __init__(self, path, modname, leanname):
         self.path = path
         self.modname = modname        # e.g. geodepy.convert
         self.leanname = leanname      # e.g. Convert
         self.src = open(path).read()
-        self.tree = ast.parse(self.src, filename=path)
+        self.tree = normalise(ast.parse(self.src, filename=path), path)
         self.funcs = {}               # name -> ast.FunctionDef
         self.classes = {}             # name -> ast.ClassDef
         self.consts = {}              # name -> ast.Assign value
@@ -564,6 +536,12 @@ class Translator:
         lets = []
         for st in init.body:
             if isinstance(st, ast.Expr) and isinstance(st.value, ast.Constant):
+                continue
+            if isinstance(st, ast.Assign) and len(st.targets) == 1 and isinstance(st.targets[0], ast.Name):
+                # a local of the constructor (`f = 1 / inversef` … `self.f = f`): a `let` of the same name
+                e, k = env.expr(st.value, selfname='self', selffields=dict(fields))
+                env.vars[st.targets[0].id] = k
+                lets.append(f'  let {lean_ident(st.targets[0].id)} := {e}')
                 continue
             if not (isinstance(st, ast.Assign) and len(st.targets) == 1 and
                     isinstance(st.targets[0], ast.Attribute) and
